@@ -75,7 +75,6 @@ class O5mWriter:
     # -- strings
     def _string(self, body, how):
         """body: the string (pair) with its terminators, as bytes.  how: 'inl' or a table index >= 1"""
-        chars = len(body) - body.count(b"\x00") if False else None
         if how == "inl":
             self.log.append(("inl", body))
             n_chars = self._chars(body)
